@@ -198,6 +198,7 @@ def _wrapped_lookup_records(self, **kwargs):
   if self._engine._is_current_node_formula: S["in_formula"] += 1
   got = list(result._row_ids)
   _LAST[0] = (expected, ordered, result)
+  _LAST_REASON[0] = None
   if not ordered: S["unordered"] += 1
   S["nontrivial"].add(hash((self.table_id, repr(sorted(_show_kwargs(shown).items())),
                             tuple(got))))
@@ -219,6 +220,7 @@ def _wrapped_lookup_records(self, **kwargs):
     for r in set(expected) - set(got):
       reasons.add("5:matching-row-missing")
     if len(set(got)) != len(got): reasons.add("6:duplicate-row")
+    _LAST_REASON[0] = sorted(reasons)[0][2:] if reasons else None
     S["viol"].append(("C13.exact_rows", {
       "table": self.table_id, "kwargs": _show_kwargs(shown), "returned": got, "expected": expected,
       "reason": [sorted(reasons)[0][2:]], "all_reasons": sorted(reasons),
@@ -250,6 +252,9 @@ def _order_root_cause(tbl, result):
   return "order"
 
 
+_LAST_REASON = [None]
+
+
 def _wrapped_lookup_one(self, **kwargs):
   shown = dict(kwargs)
   rec = _real_lookup_one(self, **kwargs)      # goes through the wrapped lookup_records
@@ -264,7 +269,10 @@ def _wrapped_lookup_one(self, **kwargs):
   if not ok or not isinstance(rec, _records.Record):
     dropped = GHOST["replaced_rows"].get((id(self._engine), self.table_id), set())
     reason = "lookup_one"
-    if rid and rid not in self.row_ids and rid in dropped:
+    if _LAST_REASON[0]:
+      # the lookup_records call underneath already returned the wrong rows: same root cause
+      reason = _LAST_REASON[0]
+    elif rid and rid not in self.row_ids and rid in dropped:
       reason = "returned-row-was-dropped-by-ReplaceTableData"
     elif ordered and rid in expected:          # right rows, wrong first one: an ordering failure
       rc = _order_root_cause(self, last_result)
